@@ -484,6 +484,9 @@ def matchable_statuses(ctx, rep, R):
 _SI = "flumine/simulation/simulation.py"
 _OP = "flumine/order/orderpackage.py"
 MUTANTS = [
+    dict(id="c07-remove-during-scan", file=_SI, func="FlumineSimulation._check_pending_packages",
+         old="                processed.append(order_package)\n", new="                self.handler_queue.remove(order_package)\n",
+         expect=["R2"], why="removal while iterating skips the package behind every released one"),
     dict(id="c07-pending-after-new-book", file=_SI, func="FlumineSimulation._process_market_books",
          old="            # check if there are orders to process (limited to current market only)\n            if self.handler_queue:\n                self._check_pending_packages(market_id)\n\n",
          new="", expect=["R1"], why="(variant) release step removed"),
